@@ -6,6 +6,7 @@ import Flowjaxv.Model.NetInverse
 import Flowjaxv.Model.Planar
 import Flowjaxv.Model.Triangular
 import Flowjaxv.Gen.Misc
+import Flowjaxv.Model.JaxTrBij
 /-!
 # Vocabulary of `flowjax/flows.py` (hand-written, Mathlib-free, executable)
 
@@ -19,7 +20,8 @@ How randomness is modelled: **a PRNG key is what it determines.**  `jr.split(key
 `key i`; `jr.split(layer_key)` is the pair (what the layer constructor draws from `bij_key` — i.e. the layer's trainable
 parameters, which training then moves anywhere: the theorems quantify over ALL of them — , what `jr.permutation` draws
 from `perm_key` — an arbitrary permutation).  `eqx.filter_vmap(make_layer)(keys)` is `keys.map make_layer` (the stacked
-layers, unstacked) and `Scan(layers)` is the generated `Chain` of the unstacked layers.  Both are tied to the real
+layers, unstacked) and `Scan(layers)` is the GENERATED `Scan` (`Gen/JaxTransforms.lean`) of that stacked module — proved equal to
+the generated `Chain` of the unstacked layers.  Both are tied to the real
 `lax.scan` / `filter_vmap` by `tools/props/flows.py` (real flows from the factories, unstacked with `fj.unstack_scan`).
 -/
 open Gen
@@ -41,8 +43,11 @@ def invertOf (b : Bij X C α) : Bij X C α := (Invert.mk b).toBij
 IS the flat chain `[*layer, permutation]` is checked structurally by `tools/props/flows.py`. -/
 def mergeChains (b : Bij X C α) : Bij X C α := b
 
-/-- `Scan(layers)`: the layers (unstacked along the leading axis) applied one after the other — the generated `Chain` -/
-def scanOf (layers : List (Bij X C α)) : Bij X C α := (Chain.mk layers).toBij
+/-- `Scan(layers)` for the stacked module whose slices are `layers`: the four methods GENERATED from
+`flowjax/bijections/jax_transforms.py` (`Gen/JaxTransforms.lean`; `lax.scan` / `eqx.partition` / `eqx.combine` as in
+`Model/JaxTrWorld.lean`).  `Proofs/JaxTransforms.lean` proves it equal to the generated `Chain` of the layers
+(`Flows.scanOf_eq_chain`). -/
+def scanOf (layers : List (Bij X C α)) : Bij X C α := (JaxTr.scanOfLayers layers).toBij
 
 /-- `eqx.filter_vmap(make_layer)(keys)`: one layer per key; the result stands for the stacked layers, unstacked -/
 def filterVmap {κ β : Type} (makeLayer : κ → β) (keys : List κ) : List β := keys.map makeLayer
